@@ -200,8 +200,7 @@ _TS = [re.compile(rb"Last-Modified: [^\r\n]*\r\n"), re.compile(rb" Mod-Date: [^\
 
 
 def _norm(resp, zipside):
-    if zipside:
-        resp = resp.replace(b"Tarch.zip", b"Tarch")
+    resp = resp.replace(b"Tarch.zip", b"Tarch")  # on both sides: file contents may contain the string too
     for rx in _TS:
         resp = rx.sub(b"", resp)
     return resp
